@@ -351,8 +351,7 @@ def _gen_root(item):
     for text, is_expr, cost in en.root_programs(root, bud, red):
         raw += 1
         text += "\n"
-        old = out.get(text)
-        if old is None or (2 * cost[0] + cost[1], cost) < (2 * old[1][0] + old[1][1], old[1]):
+        if text not in out:
             out[text] = (is_expr, cost)
     return raw, [(t, e, c) for t, (e, c) in out.items()]
 
